@@ -113,11 +113,12 @@ type DropRec struct {
 
 // Handover records that a frame carried data (or an error) for a rid.
 type Handover struct {
-	T     int
-	RID   string
-	Req   *ClientReq // response that carried it (nil: event)
-	Fresh bool       // the client did not hold it before
-	IsErr bool       // handed as an error placeholder
+	T       int
+	RID     string
+	Req     *ClientReq // response that carried it (nil: event)
+	Fresh   bool       // the client did not hold it before
+	IsErr   bool       // handed as an error placeholder
+	Differs bool       // the client already held it and the content in this frame differs from its copy
 }
 
 type DirectRec struct {
@@ -268,6 +269,7 @@ func (c *RefClient) addResources(set map[string]interface{}, t int) {
 				nr := makeRes(typ, data)
 				if nr == nil || !resEqual(old, nr) {
 					c.ResendDiffers++
+					c.Handovers[len(c.Handovers)-1].Differs = true
 				}
 				continue
 			}
